@@ -242,6 +242,15 @@ def run_case(concepts, case, spec):
                 judge_labels(common.tie(lat2, ctx), cap, 'second_lattice')
                 common.drop_views()
             COL.count('second_lattice_on_same_context')
+    if hash(gen.table_key(case)) % 5 == 1:      # the cached lattice is dropped and computed again
+        vars(ctx).pop('lattice', None)
+        lat3 = common.get_lattice(ctx)
+        if lat3 is not RAISED:
+            with core.monitor_code():
+                common.drop_views()
+                judge_labels(lat3, cap, 'recomputed')
+                common.drop_views()
+            COL.count('lattice_recomputed_after_dropping_the_cache')
     members = list(lat)
     for c in rng.sample(members, min(len(members), 12)):
         call(str, c)
